@@ -30,11 +30,11 @@ package utils
 
 // a draw u in [0,1) becomes min + u * (max - min): the width is the signed difference (a negative scaling mirrors the range)
 //@ func NewValueInRangeGenerator
-//@   property C18 C01 C07 C09
+//@   property C18 C01 C07 C09 C20
 //@   returnhint [width_is_max_minus_min] dif == valueRange.Max - valueRange.Min
 //@   ensures [a_generator] true
 //@ func NewValueInRangeGenerator$1
-//@   property C18 C01 C07 C09
+//@   property C18 C01 C07 C09 C20
 //@   fnparam generator ensures 0.0 <= result && result < 1.0
 //@   ensures [in_range] exists u real :: 0.0 <= u && u < 1.0 && result == u * dif + valueRange.Min
 
@@ -89,12 +89,15 @@ package utils
 //@ wire ExpFromZeroFunction
 //@   property C01 C17 C20
 //@   json Alpha=alpha Multiplier=multiplier
+//@   gotypes Alpha=float64 Multiplier=float64
 //@ wire LinearFunctionParameters
 //@   property C01 C05 C20
 //@   json A=a B=b
+//@   gotypes A=float64 B=float64
 //@ wire ValueRange
 //@   property C01 C18 C20
 //@   json Min=min Max=max
+//@   gotypes Min=float64 Max=float64
 
 // ---- registries looked up by name (C20): abstract view of "something that can list identifiable objects"
 // identOf: the name an object registers under; iterLen / iterAt: what an IdentifiableIterable lists (each registry gives its own
